@@ -66,7 +66,7 @@ static int wide_ple_shape(rng_t *r, sbuf_t *o, int reg, int *m_out, int *n_out) 
 }
 
 const char *const gen_all_ops[] = {
-  "mul_naive", "addmul_naive", "mul_va", "mul_m4rm", "addmul_m4rm", "mul", "addmul", "sqr", "djb",
+  "mul_naive", "addmul_naive", "mul_va", "mul_naive_t", "mul_m4rm", "addmul_m4rm", "mul", "addmul", "sqr", "djb",
   "ech_naive", "ech_m4ri", "ech_pluq", "ech", "top_ech",
   "ple", "pluq", "ple_naive", "pluq_naive", "ple_russian", "pluq_russian",
   "trsm_ul", "trsm_ll", "trsm_ur", "trsm_lr", "trtri", "inv_m4ri", "invert_naive",
@@ -102,6 +102,15 @@ int gen_case(rng_t *r, const char *op, const genopt_t *g, sbuf_t *o, int rb, int
     else sb_printf(o, "op %s %d %d %d\n", op, rb, rb + 1, rb + 2);
     return 3;
   }
+  if (IS("mul_naive_t")) {
+    int m = gen_dim(r, D > 300 ? 300 : D), l = gen_dim(r, D), n = gen_dim(r, D > 300 ? 300 : D);
+    int clear = (int)rng_below(r, 2);
+    emit_mat(r, o, rb + 1, m, l, NULL, 0);
+    emit_mat(r, o, rb + 2, n, l, NULL, 0);
+    emit_mat(r, o, rb, m, n, clear ? "junk" : "rand", 128);
+    sb_printf(o, "op mul_naive_t %d %d %d %d\n", rb, rb + 1, rb + 2, clear);
+    return 3;
+  }
   if (IS("sqr")) {
     int n = gen_dim(r, D);
     emit_mat(r, o, rb + 1, n, n, NULL, 0);
@@ -112,11 +121,23 @@ int gen_case(rng_t *r, const char *op, const genopt_t *g, sbuf_t *o, int rb, int
   if (IS("ech_naive") || IS("ech_m4ri") || IS("ech_pluq") || IS("ech") || IS("top_ech")) {
     int m = gen_dim(r, D), n = gen_dim(r, D);
     if (IS("ech_naive") && m > 500) m = 1 + m % 500;
+    int hybrid = 0;
+    if (IS("ech") && D >= 200 && rng_chance(r, 1, 2)) { /* density-switching hybrid: first pivot beyond column 256, remaining block denser than the switching threshold (0.15), whole matrix sparser */
+      hybrid = 1;
+      m = 40 + (int)rng_below(r, 260); n = 640 + (int)rng_below(r, 400);
+      int dens = 45 + (int)rng_below(r, 46);                       /* 0.176 .. 0.35 */
+      int minlead = (int)((double)n * (1.0 - 0.13 * 256.0 / (double)dens)) + 1;
+      if (minlead < 257) minlead = 257;
+      int maxlead = n * 8 / 10;
+      if (maxlead <= minlead) maxlead = minlead + 1;
+      int lead = minlead + (int)rng_below(r, (uint64_t)(maxlead - minlead));
+      sb_printf(o, "mat %d %d %d leadz %d %llu\n", rb, m, n, lead * 1000 + dens, (unsigned long long)(rng_u64(r) >> 1));
+    } else
     if (!IS("ech_naive") && D >= 200 && rng_chance(r, 1, 4)) wide_ple_shape(r, o, rb, &m, &n);
     else emit_mat(r, o, rb, m, n, rng_chance(r, 1, 2) ? "rank" : NULL, 1 + (long)rng_below(r, (uint64_t)(m < n ? m : n)));
     if (IS("ech_m4ri")) sb_printf(o, "op %s %d %d %d\n", op, rb, (int)rng_below(r, 2), (int)rng_below(r, 9));
     else if (IS("top_ech")) sb_printf(o, "op %s %d %d\n", op, rb, (int)rng_below(r, 9));
-    else sb_printf(o, "op %s %d %d\n", op, rb, (int)rng_below(r, 2));
+    else sb_printf(o, "op %s %d %d\n", op, rb, hybrid ? (int)(rng_below(r, 4) != 0) : (int)rng_below(r, 2));
     return 1;
   }
   if (IS("ple") || IS("pluq") || IS("ple_naive") || IS("pluq_naive") || IS("ple_russian") || IS("pluq_russian")) {
